@@ -1,7 +1,7 @@
 //! C01 (no panic, always terminates), C09 (fields are the bytes on the wire, zero-copy),
 //! C11 (compound tiling and iteration), C12 (dispatch and conversions).
 
-use super::parse::HeaderSweep;
+use super::parse::{len_leg, HeaderSweep, LenCase};
 use crate::drive::{diff, expected_observation, observe_packet};
 use crate::gen;
 use crate::model::*;
@@ -488,6 +488,10 @@ pub(crate) fn c01_oracle(c: &Bytes, st: &mut Stats) -> Verdict {
     Ok(())
 }
 
+pub(crate) fn c01_len_oracle(c: &LenCase, st: &mut Stats) -> Verdict {
+    c01_oracle(&c.bytes(), st)
+}
+
 fn short_strings(i: u64) -> Bytes {
     // every string of length <= 2
     if i == 0 {
@@ -545,6 +549,8 @@ pub fn c01(tier: Tier) -> Check {
             Box::new(RandomLeg { name: "large-inputs", cases: tier.pick(160, 2_000), make: Box::new(gen::big_bytes), oracle: c01_oracle }),
             Box::new(SweepLeg { name: "all-strings-up-to-2-bytes", n: 1 + 256 + 65536, at: Box::new(short_strings), oracle: c01_oracle, exhaustive: true }),
             Box::new(SweepLeg { name: "header-space", n, at: Box::new(move |i| sweep.at(i)), oracle: c01_oracle, exhaustive: true }),
+            // the quick selection of length fields in both tiers: every accessor incl. Debug runs over up to 256 KiB
+            len_leg(Tier::Quick, c01_len_oracle),
         ],
     }
 }
@@ -727,6 +733,39 @@ pub(crate) fn c09_ref_oracle(spec: &PacketSpec, st: &mut Stats) -> Verdict {
     Ok(())
 }
 
+/// zero-bodied packets of every length field: the exactly framed ones must be accepted by the unknown
+/// parser (and by the APP parser when they carry its type), exposing exactly the caller's bytes
+pub(crate) fn c09_len_oracle(c: &LenCase, st: &mut Stats) -> Verdict {
+    let bytes = c.bytes();
+    let b = &bytes.0[..];
+    let padded_ok = c.p && c.len >= 8 && c.last != 0 && c.last % 4 == 0 && (c.last as usize) <= b.len() - 4;
+    if c.exact() && (!c.p || padded_ok) {
+        st.label("exactly framed: must be accepted");
+        let u = no_panic("Unknown::parse", || Unknown::parse(b))?;
+        let u = match u {
+            Ok(u) => u,
+            Err(e) => fail!("C09:Unknown:rejected-well-formed", "Unknown::parse = Err({e:?}) on a well-framed {}-byte packet with length field {:#06x}", b.len(), c.lf),
+        };
+        let d = no_panic("Unknown::data", || u.data())?;
+        ensure!(d.as_ptr() == b.as_ptr() && d.len() == b.len(), "C09:Unknown:data-not-the-input", "Unknown::data() is {} bytes at another address than the {}-byte input", d.len(), b.len());
+        let pad = if c.p { c.last as usize } else { 0 };
+        if c.pt == 204 && b.len() >= 12 + pad {
+            let a = no_panic("App::parse", || App::parse(b))?;
+            let a = match a {
+                Ok(a) => a,
+                Err(e) => fail!("C09:App:rejected-well-formed", "App::parse = Err({e:?}) on a well-framed {}-byte APP packet with length field {:#06x}", b.len(), c.lf),
+            };
+            let d = no_panic("App::data", || a.data())?;
+            sub_slice("App::data", d, b, 12, b.len() - 12 - pad)?;
+        }
+    }
+    c09_oracle(&bytes, st)
+}
+
+pub(crate) fn c12_len_oracle(c: &LenCase, st: &mut Stats) -> Verdict {
+    c12_oracle(&c.bytes(), st)
+}
+
 pub fn c09(tier: Tier) -> Check {
     Check {
         property: "C09",
@@ -755,6 +794,7 @@ pub fn c09(tier: Tier) -> Check {
                         })
                         .boxed()
                 }), oracle: c09_ref_oracle }),
+            len_leg(tier, c09_len_oracle),
         ],
     }
 }
@@ -842,6 +882,51 @@ fn compound_case() -> BoxedStrategy<CompoundCase> {
         .boxed()
 }
 
+/// datagrams beyond 64 KiB, given as runs of zero-bodied tiles (packet type, length field, repeat)
+#[derive(Clone, Debug, PartialEq, Eq, Hash, Serialize, Deserialize)]
+pub struct BigTiling {
+    pub runs: Vec<(u8, u16, u32)>,
+    /// stray bytes after the last tile
+    pub tail: u8,
+    pub extra: u8,
+}
+
+fn big_tilings() -> Vec<BigTiling> {
+    let mut v = Vec::new();
+    let shapes: Vec<Vec<(u8, u16, u32)>> = vec![
+        vec![(204, 0x3fff, 1)],                  // one 65536-byte tile
+        vec![(204, 0x4000, 1)],                  // one 65540-byte tile
+        vec![(207, 0xffff, 1)],                  // the largest packet there is
+        vec![(201, 1, 8192), (203, 0, 1)],       // 8192 receiver reports and a BYE: 65540 bytes
+        vec![(203, 0, 16385)],                   // 16385 header-only BYEs: 65540 bytes
+        vec![(201, 1, 1), (204, 0x4e20, 1)],     // a small tile, then an 80 KB APP
+        vec![(204, 0xffff, 1), (203, 0, 1)],     // 256 KiB, then a BYE
+        vec![(200, 6, 3000), (202, 0, 1), (203, 0, 1)],
+        vec![(203, 0, 16384)],                   // exactly 65536 bytes
+        vec![(201, 1, 8191), (203, 0, 1)],       // just below 64 KiB: 65532 bytes
+    ];
+    for runs in shapes {
+        for tail in [0u8, 1, 3] {
+            v.push(BigTiling { runs: runs.clone(), tail, extra: 2 });
+        }
+    }
+    v
+}
+
+pub(crate) fn c11_big_oracle(c: &BigTiling, st: &mut Stats) -> Verdict {
+    let mut b = Vec::new();
+    for (pt, lf, rep) in &c.runs {
+        for _ in 0..*rep {
+            let at = b.len();
+            b.resize(at + 4 * (*lf as usize + 1), 0);
+            b[at..at + 4].copy_from_slice(&[0x80, *pt, (*lf >> 8) as u8, *lf as u8]);
+        }
+    }
+    b.resize(b.len() + c.tail as usize, 0x80);
+    st.label(if b.len() > 65535 { "datagram > 65535 bytes" } else { "datagram <= 65535 bytes" });
+    c11_oracle(&CompoundCase { bytes: Bytes(b), extra: c.extra }, st)
+}
+
 const CH_LF: [u16; 6] = [0, 1, 2, 3, 5, 0xffff];
 const CH_PT: [u8; 3] = [200, 203, 99];
 
@@ -886,6 +971,7 @@ pub fn c11(tier: Tier) -> Check {
         legs: vec![
             Box::new(RandomLeg { name: "generated-datagrams", cases: tier.pick(120_000, 3_000_000), make: Box::new(compound_case), oracle: c11_oracle }),
             Box::new(SweepLeg { name: "length-chains", n, at: Box::new(at), oracle: c11_oracle, exhaustive: true }),
+            Box::new(ListLeg { name: "datagrams-beyond-64KiB", cases: big_tilings(), oracle: c11_big_oracle }),
         ],
     }
 }
@@ -1022,6 +1108,7 @@ pub fn c12(tier: Tier) -> Check {
             Box::new(RandomLeg { name: "generated-strings", cases: tier.pick(150_000, 4_000_000), make: Box::new(gen::parser_input), oracle: c12_oracle }),
             Box::new(RandomLeg { name: "valid-images", cases: tier.pick(40_000, 800_000), make: Box::new(|| gen::valid_image().prop_map(Bytes).boxed()), oracle: c12_oracle }),
             Box::new(SweepLeg { name: "header-space", n, at: Box::new(move |i| sweep.at(i)), oracle: c12_oracle, exhaustive: true }),
+            len_leg(tier, c12_len_oracle),
         ],
     }
 }
